@@ -479,6 +479,8 @@ def run_C04(ctx, R):
     _per_config(ctx, R, _inl(parse.tab23))
     from .rules import numcls
     _per_config(ctx, R, lambda units, r: numcls.num4(units, r, unit_names=('cJSON.c',)))
+    from .rules import bnd as _bnd
+    _per_config(ctx, R, _bnd.bnd4_all)          # a number whose text does not fit the scratch array is not printed at all
 
 
 def run_C05(ctx, R):
